@@ -47,9 +47,14 @@ def run(tier, seed, replay=None):
         if tier == "thorough" or i % 3 == seed % 3 or len(name) <= len("gen/implmix_XXX"):
             pts.append((f"{name}@w=100,se={se},mix", name, text,
                         dict(o, max_width=100, style_edition=se)))
+    pts += universe.option_points(tier, seed)
     jobs1 = []
     for k, (pid, name, text, opts) in enumerate(pts):
         jobs1.append({"id": len(jobs1), "src": text, "opts": opts, "want": ["out"], "_pid": pid})
+        if ",opt." in pid:
+            # the same point from a source with blanks at line ends and on blank lines
+            jobs1.append({"id": len(jobs1), "src": universe.dirty(text, core.fnv(pid.encode())),
+                          "opts": opts, "want": ["out"], "_pid": pid + ":dirty"})
         # the same point from a perturbed layout: not a blessed fixed point
         hp = core.fnv(pid.encode())      # a function of the point, not of its rank in this run
         if tier == "thorough" or hp % 2 == 0:
